@@ -34,6 +34,15 @@ where
         self.0.is_empty()
     }
 
+    /// Shadows `HashMap::iter` (reached through `Deref`) so that the iteration order of a
+    /// substitution can be chosen by the verification harness.
+    #[cfg(feature = "verif")]
+    pub fn iter(&self) -> std::vec::IntoIter<(&LTerm<U, E>, &LTerm<U, E>)> {
+        let items: Vec<(&LTerm<U, E>, &LTerm<U, E>)> = self.0.iter().collect();
+        crate::verif::order(items, |(k, v)| (crate::verif::term_key(*k), crate::verif::term_key(*v)))
+            .into_iter()
+    }
+
     /// Walk substitution map
     ///
     /// Walking the substitution map recursively traverses the map until no next term is found,
